@@ -237,15 +237,15 @@ Section Bridge.
   Qed.
 
   (* values read from the tape *)
-  Lemma shape_ok_T v : shape_ok T T v = true -> exists es, v = VArr es /\ length es = n.
+  Lemma shape_ok_T v : ring_shape_ok T T v = true -> exists es, v = VArr es /\ length es = n.
   Proof.
-    destruct v as [es|vs]; cbn [shape_ok]; rewrite ty_eqb_refl; [|discriminate].
+    destruct v as [es|vs]; cbn [ring_shape_ok]; rewrite ty_eqb_refl; [|discriminate].
     intros H. exists es. split; auto. unfold n. lia.
   Qed.
 
-  Lemma shape_ok_rel v : forall t, shape_ok T t v = true -> rel t (in_of_value v) v.
+  Lemma shape_ok_rel v : forall t, ring_shape_ok T t v = true -> rel t (in_of_value v) v.
   Proof.
-    induction v as [es|vs IH] using value_ind'; intros t; cbn [shape_ok in_of_value].
+    induction v as [es|vs IH] using value_ind'; intros t; cbn [ring_shape_ok in_of_value].
     - destruct (ty_eqb t T) eqn:E.
       + apply ty_eqb_eq in E. subst t. intros H. apply rel_leaf. unfold n. lia.
       + apply ty_eqb_false in E. intros H. apply rel_other; auto.
@@ -299,7 +299,7 @@ Section Bridge.
   (* ---------------------------------------------------------------- one node *)
   Definition tape_cond (k : nat) (nd : node) : bool :=
     if from_tape (n_op nd) then
-      match tape (Z.of_nat k) with Some v => shape_ok T (n_ty nd) v | None => false end
+      match tape (Z.of_nat k) with Some v => ring_shape_ok T (n_ty nd) v | None => false end
     else true.
 
   Definition step_inputs (k : nat) (nd : node) : list value :=
